@@ -300,9 +300,11 @@ pub(crate) fn gen_key(outfile: Option<String>, env_pass: bool) -> Result<(), any
     let key_config =
         Keyring::serialize_key(name.as_str(), &encoded_public_key, &encoded_private_key);
 
+    let mut append = false;
     let key_output = if let Some(ref outfile) = outfile {
         // If the file already exists, write additional keys beginning with a newline.
         if Path::new(outfile).exists() {
+            append = true;
             format!("\n{}", key_config)
         } else {
             key_config
@@ -314,7 +316,13 @@ pub(crate) fn gen_key(outfile: Option<String>, env_pass: bool) -> Result<(), any
     };
 
     let is_text = true;
-    let mut keyring = open_output(outfile.as_deref(), is_text)?;
+    let mut keyring: Box<dyn Write> = if append {
+        // Add to the existing keyring. open_output() would truncate it.
+        let path = outfile.as_deref().unwrap();
+        Box::new(std::fs::OpenOptions::new().append(true).open(path)?)
+    } else {
+        open_output(outfile.as_deref(), is_text)?
+    };
     keyring.write_all(key_output.as_bytes())?;
     keyring.flush()?;
 
